@@ -2,7 +2,7 @@
 import json
 from . import lib, domlib as D, dom13 as S
 
-TRUSTED = ['Coq 8.16.1 kernel + VM', 'Spec/DomL1.v: hand transcription of DOM Level 1 Core (readings R1-R6 in its header), extracted (ExtrOcamlBasic) into ocaml/specdomains/dom/dom.ml',
+TRUSTED = ['Coq 8.16.1 kernel + VM', 'Spec/DomL1.v: hand transcription of DOM Level 1 Core (readings R1-R6 in its header), extracted (ExtrOcamlBasic) into ocaml/specdomains/dom/dom.ml; Element.normalize: dom_normalize of the same file (reading R7) decides every NZ call, in the merged-text view the driver keeps its result class and expects the raw tree unchanged (C13_normalize_merged_view); the python reading spec_normalize of checks/dom13.py is a second oracle that must agree',
            'Model/Store.v + Model/DomOps.v: hand-written model of the repaired code, tied by the dom correspondence (campaign of C12/C14, re-used here)',
            'harness/src/domains/dom.rs (dump through the public DOM API, `+x` extension: owner document, qualified names)',
            'Model/DomFacts.v (string facts of a call computed by the parser model: extracted, ocaml/domains/domfacts/domfacts.ml) is compared with the `digest` of the harness on hand-picked, generator and random strings (checks/dom13.py facts_tie)',
@@ -22,6 +22,17 @@ def check(run):
                           'deviating_calls_by_class': s['n13']})
         for c in s['crashes'][:3]:
             run.tie_breaks.append('harness produced no records: %s' % c['line'])
+        # Element.normalize: every NZ call is decided by the extracted dom_normalize (Spec/DomL1.v, reading R7); the python
+        # oracle spec_normalize of checks/dom13.py is evaluated on the same calls and must agree
+        H = s['hist']
+        run.extra['normalize_oracles'] = {'NZ_calls': H.get('normalize:calls', 0),
+                                          'decided_by_extracted_dom_normalize': H.get('normalize:decided-by-extracted-dom_normalize', 0),
+                                          'raw_view': H.get('normalize:view-r', 0), 'merged_view_expected_unchanged': H.get('normalize:view-m', 0),
+                                          'python_oracle_agrees': H.get('normalize:oracles-agree', 0),
+                                          'python_oracle_disagrees': H.get('normalize:oracles-disagree', 0)}
+        for d in s.get('oracle_disagree', [])[:3]:
+            run.tie_breaks.append('normalize oracles: %s on %s in view %s; history on %s: %s'
+                                  % (d['detail'][:400], D.show_op(tuple(d['op'])), d['view'], d['docs'], ' ; '.join(D.show_op(tuple(o)) for o in d['ops'])))
         hits = {}
         for f in s['c13']:
             fid = S.classify13(f)
